@@ -282,24 +282,40 @@ def compute_reference(cfg):
 
 
 def _explain_impedance_no_restore(before, after, diff):
-    """recorded defect: ImplausibleImpedanceValues sets the flagged lines out of service and adds one closed bus-bus
-    switch per flagged line; if the power flow on that modified net raises anything but a convergence error the
-    restoring block is skipped.  True iff the tables differ exactly in that way."""
-    if not set(diff) <= {"line", "switch", "res_switch", "res_line"} or "line" not in diff or "switch" not in diff:
+    """recorded defect: ImplausibleImpedanceValues sets the flagged lines / impedances / xwards / trafos out of
+    service and appends replacement elements (one closed bus-bus switch per line or impedance, 0.01 p.u. impedances
+    per trafo, wards per xward); if the power flow on that modified net raises anything but a convergence error the
+    restoring block is skipped.  True iff the nets differ exactly in that way: original rows identical except
+    in_service True->False flips, plus appended rows in switch / impedance / ward, the appended switches being
+    closed bus-bus switches between the terminals of the flagged lines."""
+    editable = {"line", "impedance", "xward", "trafo", "trafo3w", "switch", "ward"}
+    if not all(k in editable or k.startswith("res_") for k in diff) or "switch" not in diff and "impedance" not in diff:
+        return False
+    flips = 0
+    for tab in sorted(editable & set(diff)):
+        tb, ta = before[tab], after[tab]
+        if len(ta) < len(tb) or list(ta.index[:len(tb)]) != list(tb.index):
+            return False
+        if len(ta) > len(tb) and tab not in ("switch", "impedance", "ward"):
+            return False
+        head = ta.iloc[:len(tb)]
+        if "in_service" in tb.columns:
+            if not head.drop(columns="in_service").equals(tb.drop(columns="in_service")):
+                return False
+            fb, fa = tb.in_service.values.astype(bool), head.in_service.values.astype(bool)
+            if (fa & ~fb).any():
+                return False
+            flips += int((fb & ~fa).sum())
+        elif not head.equals(tb):
+            return False
+    if not flips:
         return False
     lb, la = before.line, after.line
-    if list(lb.index) != list(la.index) or not lb.drop(columns="in_service").equals(la.drop(columns="in_service")):
-        return False
     flagged = [i for i in lb.index if bool(lb.at[i, "in_service"]) and not bool(la.at[i, "in_service"])]
-    if not flagged or any(bool(la.at[i, "in_service"]) and not bool(lb.at[i, "in_service"]) for i in lb.index):
-        return False
-    sb, sa = before.switch, after.switch
-    if len(sa) != len(sb) + len(flagged) or not sa.iloc[:len(sb)].equals(sb):
-        return False
-    new = sa.iloc[len(sb):]
+    new = after.switch.iloc[len(before.switch):]
     want = [(int(lb.at[i, "from_bus"]), int(lb.at[i, "to_bus"])) for i in flagged]
     got = [(int(r.bus), int(r.element)) for r in new.itertuples()]
-    return got == want and all(new.et == "b") and all(new.closed)
+    return got[:len(want)] == want and all(new.et == "b") and all(new.closed)
 
 
 # ----------------------------------------------------------------------------------------------
